@@ -18,10 +18,33 @@ pub fn oversize(sc: &Scenario, run: &RunLog) -> Vec<(u64, usize, &'static str, S
     let mut out = Vec::new();
     for r in &sc.reals {
         let (pairs, _, _) = pair_replies(&run.log, r.addr);
+        // store model (as in C07): (info-hash, contact) -> time of the last acknowledged announce
+        let mut stored: std::collections::BTreeMap<([u8; 20], std::net::SocketAddr), u64> = Default::default();
+        let mut acks: Vec<(u64, [u8; 20], std::net::SocketAddr)> = Vec::new();
+        for (q, rep) in &pairs {
+            if let (Some(qm), Some(rm)) = (&q.msg, &rep.msg) {
+                if qm.qname() == Some("announce_peer") && rm.is_response() {
+                    if let Some(a) = qm.args() {
+                        if let Some(ih) = a.get("info_hash").and_then(krpc::id20) {
+                            let implied = a.get("implied_port").and_then(|x| x.as_int()).unwrap_or(0) != 0;
+                            let port = a.get("port").and_then(|x| x.as_int()).unwrap_or(0) as u16;
+                            let contact = if implied { q.src } else { std::net::SocketAddr::new(q.src.ip(), port) };
+                            acks.push((rep.t, ih, contact));
+                        }
+                    }
+                }
+            }
+        }
+        acks.sort();
+        let mut ack_i = 0usize;
         for e in &run.log {
             if let Ev::Send { t, src, dst, bytes, src_kind: EpKind::Real, seq, .. } = e {
                 if *src != r.addr || bytes.len() <= MAX_DATAGRAM {
                     continue;
+                }
+                while ack_i < acks.len() && acks[ack_i].0 <= *t {
+                    stored.insert((acks[ack_i].1, acks[ack_i].2), acks[ack_i].0);
+                    ack_i += 1;
                 }
                 // is it a get_peers reply whose excess is its values list?
                 let paired = pairs.iter().find(|(_, rep)| rep.seq == *seq);
@@ -40,6 +63,19 @@ pub fn oversize(sc: &Scenario, run: &RunLog) -> Vec<(u64, usize, &'static str, S
                                 what = format!("get_peers reply with {n_values} values ({} bytes without them)", without);
                                 if without <= MAX_DATAGRAM && n_values > 0 {
                                     clause = "oversize_get_peers_values";
+                                    // the open finding is about replies that are RIGHT (exactly the live peers, C07)
+                                    // and merely too long; values that should not be there are something else
+                                    let ih = q.msg.as_ref().and_then(|m| m.args()).and_then(|a| a.get("info_hash")).and_then(krpc::id20);
+                                    let vals = rv.get("values").and_then(krpc::parse_values).unwrap_or_default();
+                                    let mut seen = std::collections::BTreeSet::new();
+                                    let stale = vals.iter().filter(|c| {
+                                        let live = ih.and_then(|h| stored.get(&(h, **c))).map(|ts| *t < *ts + 86_400_000 + 10_000).unwrap_or(false);
+                                        !live || !seen.insert(**c) || c.is_ipv6() != dst.is_ipv6()
+                                    }).count();
+                                    if stale > 0 {
+                                        clause = "oversize_values_not_live";
+                                        what = format!("get_peers reply with {n_values} values of which {stale} are expired, repeated, never announced or of the wrong family ({} bytes without values)", without);
+                                    }
                                 }
                             }
                         }
@@ -87,7 +123,9 @@ impl Property for C17 {
         let own = real.id.unwrap();
         let node = real.addr;
         // routing table of various shapes: contacts at chosen prefix depths
-        let n_stubs = *rng.pick(&[0usize, 1, 8, 20, 40, 80, 160]);
+        let churn = rng.chance(1, 6);
+        // (a day-long run is affordable only on a node that does not re-bootstrap every 5 s)
+        let n_stubs = if churn { *rng.pick(&[0usize, 0, 20]) } else { *rng.pick(&[0usize, 1, 8, 20, 40, 80, 160]) };
         for i in 0..n_stubs {
             let depth = rng.below(12) as usize;
             let s = StubCfg::honest(stub_addr(v6, i), id_with_lcp(&own, depth, &mut rng));
@@ -101,9 +139,35 @@ impl Property for C17 {
         let mut tids = Tids(0);
         let pid = rng.id20();
         let ih = rng.id20();
-        let n_peers = *rng.pick(&[0usize, 1, 20, 60, 150, 180, 186, 190, 250, 400, 500, 520]);
-        let mixed = rng.chance(1, 4);
+        let n_peers = if churn { 0 } else { *rng.pick(&[0usize, 1, 20, 60, 150, 180, 186, 190, 250, 400, 500, 520]) };
+        let mixed = rng.chance(1, 4) && !churn;
         let mut t = 5_000u64;
+        if churn {
+            // a day of honest churn on one info-hash: a long-lived seeder that keeps re-announcing and
+            // two generations of one-shot peers; live peers stay below the size at which the open
+            // finding starts, so every reply must fit
+            let cap = if v6 { 50 } else { 140 };
+            let n1 = rng.range(cap / 2, cap) as usize;
+            let n2 = rng.range(cap / 2, cap) as usize;
+            let seeder = addr(v6, 2, 50_000, 20_000);
+            announce_chain(&mut sc, &mut tids, When::At(t), seeder, node, &pid, &ih, Some(6881));
+            t += 50;
+            for k in 0..n1 {
+                announce_chain(&mut sc, &mut tids, When::At(t), addr(v6, 2, k as u32 + 1, 20_000), node, &pid, &ih, None);
+                t += 20;
+            }
+            let renew_at = *rng.pick(&[3_600_000u64, 12 * 3_600_000, 23 * 3_600_000]);
+            announce_chain(&mut sc, &mut tids, When::At(renew_at), seeder, node, &pid, &ih, Some(6881));
+            if renew_at < 20 * 3_600_000 {
+                announce_chain(&mut sc, &mut tids, When::At(renew_at + 12 * 3_600_000), seeder, node, &pid, &ih, Some(6881));
+            }
+            t = 86_400_000 + t + 60_000;
+            for k in 0..n2 {
+                announce_chain(&mut sc, &mut tids, When::At(t), addr(v6, 2, 10_000 + k as u32, 20_000), node, &pid, &ih, None);
+                t += 20;
+            }
+            sc.params.insert("churn".into(), (n1 + n2 + 1) as i64);
+        }
         for k in 0..n_peers {
             let fam6 = if mixed { k % 2 == 0 } else { v6 };
             let src = addr(fam6, 2, k as u32 + 1, 20_000);
@@ -160,6 +224,9 @@ impl Property for C17 {
         if max_len > 1000 {
             v.hit("datagram_over_1000_bytes");
         }
+        if sc.param("churn") > 0 {
+            v.hit("day_of_churn_below_known_threshold");
+        }
         if sc.param("peers") >= 500 {
             v.hit("store_full");
         }
@@ -170,12 +237,12 @@ impl Property for C17 {
         v
     }
     fn rule(&self) -> &'static str {
-        "3 of 4 cases: one real serving node with 0..160 stub contacts at chosen prefix depths; 0..520 valid announces for one info-hash (IPv4, IPv6 or mixed); get_peers and find_node probes with every want combination, both requester families, transaction ids of 0..32 bytes; announces with never-issued tokens of 0..1300 bytes; plus the node's own bootstrap, refresh and announcing-search traffic; the length of every buffer passed to the socket is checked; 1 of 4 cases: the same monitor over scenarios of the C02, C03, C05 and C09 families. non-trivial = the node sent more than two datagrams; distinct = distinct order digests"
+        "3 of 4 cases: one real serving node with 0..160 stub contacts at chosen prefix depths; 0..520 valid announces for one info-hash (IPv4, IPv6 or mixed); get_peers and find_node probes with every want combination, both requester families, transaction ids of 0..32 bytes; announces with never-issued tokens of 0..1300 bytes; plus the node's own bootstrap, refresh and announcing-search traffic; 1 of 6 of these: 25 virtual hours of churn on one info-hash (a seeder re-announcing, two generations of 25..140 one-shot peers) with live peers below the known-finding threshold; the length of every buffer passed to the socket is checked; 1 of 4 cases: the same monitor over scenarios of the C02, C03, C05 and C09 families. non-trivial = the node sent more than two datagrams; distinct = distinct order digests"
     }
     fn assumptions(&self) -> Vec<&'static str> {
-        vec!["known finding (open): a get_peers reply whose excess over 1500 bytes is accounted for by its values list is reported as KNOWN-FINDING, every other oversize datagram as VIOLATION"]
+        vec!["known finding (open): a get_peers reply whose excess over 1500 bytes is accounted for by its values list AND whose values are exactly live, distinct, same-family announced contacts (store model as in C07) is reported as KNOWN-FINDING, every other oversize datagram as VIOLATION"]
     }
     fn required_reach(&self) -> Vec<&'static str> {
-        vec!["datagram_over_1000_bytes", "store_full", "monitor_over_other_families"]
+        vec!["datagram_over_1000_bytes", "store_full", "monitor_over_other_families", "day_of_churn_below_known_threshold"]
     }
 }
